@@ -484,8 +484,14 @@ func (h *Handler) HandleGetDirSize(ctx *Context, path string) (int64, error) {
 
 	var size int64
 	// detach afero.Lstater interface to resolve symlinks in afero.Walk.
-	_ = afero.Walk(&fsOnly{h.Fs}, path, func(path string, info fs.FileInfo, err error) error {
+	err := afero.Walk(&fsOnly{h.Fs}, path, func(path string, info fs.FileInfo, err error) error {
 		if err != nil {
+			// something that is not there (anymore) or dangling symlink has no size,
+			// but total without something that couldn't be read is not the size of directory
+			if !errors.Is(err, fs.ErrNotExist) {
+				return err
+			}
+
 			log.WarnContext(ctx, "Skipping path because of error",
 				slog.String("path", path), logutil.ErrorAttr(err))
 			return nil
@@ -498,6 +504,11 @@ func (h *Handler) HandleGetDirSize(ctx *Context, path string) (int64, error) {
 		size += info.Size()
 		return nil
 	})
+
+	if err != nil {
+		log.WarnContext(ctx, "Directory size calculation failed", logutil.ErrorAttr(err))
+		return 0, err
+	}
 
 	log.DebugContext(ctx, "Directory size calculated", slog.Int64("size", size))
 
